@@ -165,6 +165,22 @@ def check : List Node → Nat → Bool
     | some d' => d' == d + 1 && check rest (d + 1)
     | none => false
 
+/-- Stricter than `check` (and what the engine enforces when it runs the code): the return is the last instruction and
+    finds exactly its operand on the stack - nothing is left behind. -/
+def exactReturn : List Node → Nat → Bool
+  | [], _ => false
+  | .ins i :: rest, d =>
+    match opInfo i.op with
+    | none => false
+    | some info =>
+      if d < info.pops then false
+      else if info.ret then rest.isEmpty && d == info.pops
+      else exactReturn rest (d - info.pops + info.pushes)
+  | .ctx _ body :: rest, d =>
+    match runBody body d with
+    | some d' => d' == d + 1 && exactReturn rest (d + 1)
+    | none => false
+
 /-- Soundness: accepted code returns, whatever the context-item tests do. -/
 theorem check_sound (atItem : Nat → Bool) : ∀ (nodes : List Node) (k d : Nat),
     check nodes d = true → exec atItem nodes k d = .ret := by
